@@ -2,12 +2,12 @@
 import itertools
 from .lib import *
 
-RULE = ("exhaustive product (both tiers): request version {1.0,1.1} x request Connection {absent, close, keep-alive, [keep-alive, close]} x "
+RULE = ("exhaustive product (both tiers): request version {1.0,1.1} x request Connection {absent, close, keep-alive, [keep-alive, close], [close, keep-alive]} x "
         "handshake {GET, POST, POST+Expect continued, POST+Expect given up, POST+Expect refused bare, POST+Expect refused with fields, "
         "POST+Expect answered by an interim 102} x response version {1.0,1.1} x status {200, 302, 404} x framing {length 0, length 3, "
         "chunked, close-delimited, close-delimited with Transfer-Encoding: gzip}; plus 3xx heads returned before they are complete "
         "(message boundary lost) x response "
-        "Connection {absent, close, keep-alive, [keep-alive, close]}; every flow is driven to Cleanup and, for 302, also inspected in "
+        "Connection {absent, close, keep-alive, [keep-alive, close], [close, keep-alive]}; close-delimited bodies also abandoned without a read; every flow is driven to Cleanup and, for 302, also inspected in "
         "Redirect. oracle = disjunction of the five conditions computed from the script, reason must name a true condition. "
         "non-trivial/distinct = every combination")
 TRUSTED_BASE = COMMON_TRUSTED_BASE
@@ -16,7 +16,7 @@ ASSUMPTIONS = ["Connection option values are compared exactly ('close'), as the 
 EXHAUSTIVE = {"quick": True, "thorough": True}
 _stats = {"must_close": 0, "reusable": 0}
 
-REQ_CONN = ["absent", "close", "keep-alive", "both"]
+REQ_CONN = ["absent", "close", "keep-alive", "both", "both-rev"]
 HANDSHAKE = ["get", "post", "expect-continue", "expect-giveup", "expect-refused", "expect-refused-fields", "expect-refused-1xx"]
 FRAMING = ["len0", "len3", "chunked", "close", "close-te"]
 REASONS = {
@@ -33,10 +33,12 @@ def conn_fields(kind, name=b"Connection"):
         return []
     if kind == "both":
         return [(name, b"keep-alive"), (name, b"close")]
+    if kind == "both-rev":
+        return [(name, b"close"), (name, b"keep-alive")]
     return [(name, kind.encode())]
 
 
-def build(rv, rconn, hs, sv, status, framing, sconn):
+def build(rv, rconn, hs, sv, status, framing, sconn, skip_read=False):
     method = "GET" if hs == "get" else "POST"
     headers = conn_fields(rconn, b"connection")
     if hs.startswith("expect"):
@@ -82,15 +84,22 @@ def build(rv, rconn, hs, sv, status, framing, sconn):
     if method == "POST" and not refused:
         ops += ["write_body %s #100" % hx(b"hi"), "proceed"]
     ops += ["raw_try_response %s" % hx(head), "proceed"]
-    ops += ["raw_read %s #100" % hx(body), "proceed"] if body else []
+    if skip_read:
+        # a close-delimited body may be abandoned: RecvBody can be left without a single read
+        ops += ["proceed"]
+    else:
+        ops += ["raw_read %s #100" % hx(body), "proceed"] if body else []
     ops += ["q_must_close", "q_close_reason", "proceed", "q_must_close", "q_close_reason"]
-    return {"ops": ops, "meta": {"combo": [rv, rconn, hs, sv, st, framing, sconn]}}
+    return {"ops": ops, "meta": {"combo": [rv, rconn, hs, sv, st, framing, sconn], "skip_read": skip_read}}
 
 
 def generate(rng, tier, mult):
     out = []
     for combo in itertools.product(["1.0", "1.1"], REQ_CONN, HANDSHAKE, ["1.0", "1.1"], [200, 302, 404], FRAMING, REQ_CONN):
         out.append(build(*combo))
+        rv, rconn, hs, sv, status, framing, sconn = combo
+        if framing in ("close", "close-te") or (framing == "chunked" and sv == "1.0"):
+            out.append(build(*combo, skip_read=True))
     # message boundary lost: a 3xx head with Location that is not complete yet is returned as a response (known finding F10 of C05);
     # whatever Connection field it carries, the connection must not be offered for reuse
     for sconn in REQ_CONN:
@@ -125,9 +134,9 @@ def oracle(script, obs):
     facts = set()
     if rv == "1.0":
         facts.add("h10")
-    if rconn in ("close", "both"):
+    if rconn in ("close", "both", "both-rev"):
         facts.add("ccl")
-    if sconn in ("close", "both"):
+    if sconn in ("close", "both", "both-rev"):
         facts.add("scl")
     if hs in ("expect-refused", "expect-refused-fields", "expect-refused-1xx"):
         facts.add("n100")
@@ -143,7 +152,7 @@ def oracle(script, obs):
         facts.add("cdl")
     want = len(facts) > 0
     _stats["must_close" if want else "reusable"] += 1
-    combo = "%s" % script["meta"]["combo"]
+    combo = "%s%s" % (script["meta"]["combo"], " (RecvBody left without reading)" if script["meta"].get("skip_read") else "")
     seen_states = [o for o in obs if o.startswith("state ")]
     if "state Cleanup" not in seen_states:
         return ["%s: flow did not reach Cleanup: %s" % (combo, seen_states[-2:])]
